@@ -212,7 +212,8 @@ func (p *PlayerListItem) Decode(c *proto.PacketContext, rd io.Reader) (err error
 						return err
 					}
 					if ok {
-						p.PlayerKey, err = crypto.ReadPlayerKey(c.Protocol, rd)
+						// the key belongs to this entry (Encode writes item.PlayerKey)
+						item.PlayerKey, err = crypto.ReadPlayerKey(c.Protocol, rd)
 						if err != nil {
 							return err
 						}
